@@ -22,6 +22,10 @@ def scenes(tier):
     out.append(("F1F2", [fixed("a", 1), fixed("b", 2)] + W + [req("a", "w"), req("b", "w")], "w"))
     out.append(("F2V", [fixed("a", 2), var("b", min_duration=1, max_duration=3)] + W + [req("a", "w"), req("b", "w")], "w"))
     out.append(("F1oF2", [fixed("a", 1, optional=True), fixed("b", 2)] + W + [req("a", "w"), req("b", "w")], "w"))
+    # due dates that are not deadlines say nothing about what the worker may do afterwards
+    out.append(("F1F2due", [fixed("a", 1, due_date=1, due_date_is_deadline=False), fixed("b", 2, due_date=2, due_date_is_deadline=False)] + W +
+                [req("a", "w"), req("b", "w")], "w"))
+    out.append(("Vdue", [var("a", min_duration=1, max_duration=3, due_date=2, due_date_is_deadline=False), fixed("b", 1)] + W + [req("a", "w"), req("b", "w")], "w"))
     # two variable-duration tasks on one worker: what one task crosses must not lengthen the other
     out.append(("VV", [var("a", min_duration=1, max_duration=3), var("b", min_duration=1, max_duration=2)] + W + [req("a", "w"), req("b", "w")], "w"))
     out.append(("sel", [fixed("a", 2), fixed("b", 1), worker("w"), worker("v"), select("s", ["w", "v"]), req("a", "s"), req("b", "w")], "w"))
@@ -149,6 +153,30 @@ def jobs(tier):
             out.append({"program": prog(Hp, sdecls + cdecls), "families": fam, "family": clab})
     for (clab, decls) in same_distinct(tier):
         out.append({"program": prog(2, decls), "families": fam, "family": clab})
+    # two constraints of one class on one resource, the first one optional (it may be left unapplied; the second one
+    # binds whatever happens to the first), same and different parameters
+    sc = [fixed("a", 2), fixed("b", 2), worker("w"), req("a", "w"), req("b", "w")]
+    twice = [
+        ("WorkLoad", lambda i, **k: con("WorkLoad", i, resource=R("w"), kind="max", dict_time_intervals_and_bound={"$tupkeys": [[[0, 4], 3]]}, **k),
+         lambda i, **k: con("WorkLoad", i, resource=R("w"), kind="max", dict_time_intervals_and_bound={"$tupkeys": [[[0, 4], 2]]}, **k)),
+        ("ResourceUnavailable", lambda i, **k: con("ResourceUnavailable", i, resource=R("w"), list_of_time_intervals=[(0, 1)], **k),
+         lambda i, **k: con("ResourceUnavailable", i, resource=R("w"), list_of_time_intervals=[(1, 2)], **k)),
+        ("ResourceInterrupted", lambda i, **k: con("ResourceInterrupted", i, resource=R("w"), list_of_time_intervals=[(0, 1)], **k),
+         lambda i, **k: con("ResourceInterrupted", i, resource=R("w"), list_of_time_intervals=[(2, 3)], **k)),
+        ("ResourceTasksDistance", lambda i, **k: con("ResourceTasksDistance", i, resource=R("w"), distance=1, mode="min", **k),
+         lambda i, **k: con("ResourceTasksDistance", i, resource=R("w"), distance=2, mode="max", **k)),
+        ("ResourcePeriodicallyUnavailable", lambda i, **k: con("ResourcePeriodicallyUnavailable", i, resource=R("w"), list_of_time_intervals=[(0, 1)], period=3, **k),
+         lambda i, **k: con("ResourcePeriodicallyUnavailable", i, resource=R("w"), list_of_time_intervals=[(1, 2)], period=3, **k)),
+    ]
+    for (clab, mk1, mk2) in twice:
+        for first, second in ((mk1, mk1), (mk1, mk2), (mk2, mk1)):
+            out.append({"program": prog(6, sc + [first("c1", optional=True), second("c2")]), "families": fam, "family": clab + "/twice"})
+            out.append({"program": prog(6, sc + [first("c1"), second("c2", optional=True)]), "families": fam, "family": clab + "/twice"})
+    # a constraint whose encoding has many assertions, on a solver that tracks them one by one (debug mode)
+    big = [fixed(t, 1) for t in "abcd"] + [worker("w")] + [req(t, "w") for t in "abcd"]
+    out.append({"program": prog(6, big + [con("WorkLoad", "c1", resource=R("w"), kind="max",
+                                              dict_time_intervals_and_bound={"$tupkeys": [[[0, 2], 2], [[2, 4], 2], [[4, 6], 0]]})]),
+                "solver": {"debug": True}, "families": fam, "family": "WorkLoad/many-assertions/debug"})
     return out
 
 
